@@ -14,6 +14,7 @@ import BespokeVerif.Model.Output
 import BespokeVerif.Model.Pipeline
 import BespokeVerif.Model.Select
 import BespokeVerif.Model.Macro
+import BespokeVerif.Model.Config
 open Lean BV
 
 namespace Drv
@@ -508,6 +509,64 @@ def opMacro (j : Json) : R Json := do
   | .ok (i, bs) => return Json.mkObj [("variant", Json.num (JsonNumber.fromNat i)), ("bytes", jNats bs), ("exp", jexp), ("spec", spec)]
   | .error e => return Json.mkObj [("err", Json.str e.name), ("exp", jexp), ("spec", spec)]
 
+def strList (j : Json) (k : String) : R (List String) := do
+  match fldOpt j k with
+  | none => pure []
+  | some a => (← a.getArr?).toList.mapM fun x => x.getStr?
+
+def parseRawOperand (j : Json) : R RawOperand := do
+  return { id := (optStr j "id").getD "", kind := ← str j "kind", register := optStr j "register", min := optInt j "min",
+           max := optInt j "max", hasArgument := boolD j "hasArgument" true, enumKeys := ← strList j "enumKeys" }
+
+def parseRawVariant (j : Json) : R RawVariant := do
+  let setRefs ← match fldOpt j "setRefs" with
+    | none => pure none
+    | some a => do pure (some (← (← a.getArr?).toList.mapM fun x => x.getStr?))
+  let specific ← match fldOpt j "specific" with
+    | none => pure []
+    | some a => do (← a.getArr?).toList.mapM fun l => do (← l.getArr?).toList.mapM parseRawOperand
+  return { hasBytecode := boolD j "hasBytecode" true, hasOperands := boolD j "hasOperands" false,
+           count := (fldOpt j "count").bind fun c => c.getNat?.toOption, setRefs := setRefs, specific := specific }
+
+def parseRawIsa (j : Json) : R RawIsa := do
+  let operandSets ← (← arr j "operandSets").toList.mapM fun e => do
+    pure ((← str e "name"), (← (← arr e "ops").toList.mapM parseRawOperand))
+  let instrs (k : String) : R (List (String × List RawVariant)) := do
+    match fldOpt j k with
+    | none => pure []
+    | some a => (← a.getArr?).toList.mapM fun e => do
+        pure ((← str e "name"), (← (← arr e "variants").toList.mapM parseRawVariant))
+  let zones ← match fldOpt j "zones" with
+    | none => pure []
+    | some a => do (← a.getArr?).toList.mapM fun e => do
+        let x ← e.getArr?; pure ((← x[0]!.getStr?), (← x[1]!.getInt?), (← x[2]!.getInt?))
+  return { hasGeneral := boolD j "hasGeneral" true, hasInstructions := boolD j "hasInstructions" true,
+           hasOperandSets := boolD j "hasOperandSets" true, minVersion := optStr j "minVersion",
+           isaVersion := optStr j "isaVersion", bits := ← nat j "bits", origin := intD j "origin" 0,
+           registers := ← strList j "registers", operandSets := operandSets, instructions := ← instrs "instructions",
+           macros := ← instrs "macros", zones := zones }
+
+/-- op "validate": is the ISA definition accepted -/
+def opValidate (j : Json) : R Json := do
+  let c ← parseRawIsa (← fld j "isa")
+  match parseVersion (← str j "running"), parseVersion (← str j "minSupported") with
+  | some r, some m => return Json.mkObj [("ok", Json.bool (validate r m c))]
+  | _, _ => throw "running / minSupported version unparsable"
+
+/-- op "require": is a `#require "name op version"` line honoured -/
+def opRequire (j : Json) : R Json := do
+  let isaName ← str j "isaName"
+  let name ← str j "name"
+  match parseVersion (← str j "isaVersion") with
+  | none => throw "isa version"
+  | some iv =>
+    let cmp ← match optStr j "cmp", optStr j "version" with
+      | some o, some v => match parseVersion v with
+        | some vv => do pure (some ((← cmpOf o), vv))
+        | none => throw "required version"
+      | _, _ => pure none
+    return Json.mkObj [("ok", Json.bool (requireOk isaName iv name cmp))]
+
 def dispatch (j : Json) : R Json := do
   let op ← str j "op"
   match op with
@@ -520,6 +579,8 @@ def dispatch (j : Json) : R Json := do
   | "decode" => opDecode j
   | "stmt" => opStmt j
   | "macro" => opMacro j
+  | "validate" => opValidate j
+  | "require" => opRequire j
   | "ping" => pure (Json.mkObj [("pong", Json.bool true)])
   | _ => throw s!"unknown op {op}"
 
